@@ -38,7 +38,7 @@ func stepCallName(s Step) string {
 
 func runC18(c *Ctx) {
 	p, r := c.P, c.R
-	r.Explanation = "Decides on every path of cloudevents.(*FormatterFilter).Process and sign: errors of every fallible step (validate, id generation, encoding, signing, predicate) end Process with a nil event; the cloudevents.Event type has exactly the ten JSON members of the property and the literal is filled from id / Source.String() / the 1.0 constant / string(e.Type) / Data() or payload / schema / e.CreatedAt, with an empty ID() rejected; the accepted formats of Format.validate and the arms of Process agree (content type, indentation, format key); signing happens iff a signer is configured and the type is listed, serialized is the base64 of exactly the bytes handed to the signer taken before the buffer is reset, serialized_hmac is the signer's result, and the document is re-encoded afterwards; the predicate decides between (e,nil), (nil,nil) and (nil,err). Uniqueness of random ids and JSON validity are not decided (third-party semantics). C18.validate: decision table of FormatterFilter.validate (accept only established-valid configurations, reject only established-invalid ones). C18.sig Rotate:store-then-error: a rejected Rotate has not replaced the signer."
+	r.Explanation = "Decides on every path of cloudevents.(*FormatterFilter).Process and sign: errors of every fallible step (validate, id generation, encoding, signing, predicate) end Process with a nil event; the cloudevents.Event type has exactly the ten JSON members of the property and the literal is filled from id / Source.String() / the 1.0 constant / string(e.Type) / Data() or payload / schema / e.CreatedAt, with an empty ID() rejected; the accepted formats of Format.validate and the arms of Process agree (content type, indentation, format key); signing happens iff a signer is configured and the type is listed, serialized is the base64 of exactly the bytes handed to the signer taken before the buffer is reset, serialized_hmac is the signer's result, and the document is re-encoded afterwards; the predicate decides between (e,nil), (nil,nil) and (nil,err). Uniqueness of random ids and JSON validity are not decided (third-party semantics). C18.validate: decision table of FormatterFilter.validate (accept only established-valid configurations, reject only established-invalid ones). C18.sig Rotate:store-then-error: a rejected Rotate has not replaced the signer. C18.recover: recover discipline over package cloudevents."
 	r.NotDecided = []string{"uniqueness of random ids", "validity of the JSON produced by encoding/json", "that serialized decodes to the unsigned document byte for byte (follows from C18.sig under A4)"}
 	c.errControls()
 	proc := c.Fn("C18.anchor", PkgCloud, "FormatterFilter", "Process")
@@ -84,6 +84,7 @@ func runC18(c *Ctx) {
 
 	// small package-level helpers Process hands the payload to (the id look-up extracted, say) are followed; the
 	// observed calls — validate, sign, newId — stay calls
+	c.ruleRecoverResults("C18.recover", []string{PkgCloud}, false)
 	paths := c.enum("C18.process", proc, PathOpts{Inline: func(caller *ssa.Function, call *ssa.Call, callee *ssa.Function) bool {
 		if caller != proc || PkgPathOf(callee) != PkgCloud || len(callee.Blocks) > 16 {
 			return false
